@@ -6,8 +6,8 @@
 import VsgModel.Lex.Create
 import VsgModel.Lex.Retok
 import VsgProofs.Lemmas.Lex
-namespace Vsgm.Lex
-open Vsgm
+namespace Vsgm.Lex.Rt
+open Vsgm Vsgm.Lex
 
 variable (T : LexTables)
 
@@ -644,4 +644,4 @@ theorem wfGo_resize (vs vs' : List Str) (hR : SameUpToWhitespace T vs vs') :
     · right; exact ih [] hr
 
 
-end Vsgm.Lex
+end Vsgm.Lex.Rt
